@@ -633,7 +633,7 @@ func TestVerifC12(t *testing.T) {
 			}
 		default:
 			c.Kind = "generated-mutated"
-			g := &c11Gen{t: t, allowOperatorCallArgs: true, allowEmptyIf: true, allowTermsAfterBlock: true, noHuge: true}
+			g := &c11Gen{t: t, allowOperatorCallArgs: true, allowEmptyIf: true, allowTermsAfterBlock: true, allowRootScope: true, allowSplitIndexField: true, noHuge: true}
 			prog := g.program()
 			donor := amlEncodeObjs(prog.Tables[0])
 			victim := rapid.IntRange(0, len(prog.Tables)-1).Draw(t, "victim")
